@@ -587,6 +587,9 @@ def parse_args(argv):
                                  env=dict(os.environ, VERIF_NO_ESCALATE="1"))
             if rc != 0:
                 sys.exit(rc)
+            # the child removed the property's scratch directory when it finished; this process still needs its HOME
+            if os.environ.get("VERIF_ISOLATED") == a.pid:
+                os.makedirs(os.environ["HOME"], exist_ok=True)
             ESCALATED.extend(ch)
             print("[%s] quick pass clean on the changed source: running with the thorough budget" % a.pid, flush=True)
             a.tier = "thorough"
